@@ -131,6 +131,13 @@ func verifyProof(persistTrie *PersistTrie, block uint64, ind *int) (Node, []byte
 				if err != nil {
 					return nil, nil, err
 				}
+				// the hash of this node binds only the sum of its children's weights:
+				// the node the proof puts in place of the child must weigh what this
+				// node claims for it, or the claimed split could steer the block to
+				// another key
+				if newNode.Weight() != child.Weight() {
+					return nil, nil, errors.New("invalid proof: child weight mismatch")
+				}
 				n.Children[i] = newNode
 				n.dirty = true
 				n.CalcHash()
